@@ -18,7 +18,7 @@ PID = 'C01'
 RULE = ('cases = (package, extinction law, A_V range, sources) drawn from the quantifier of C01; a case is '
         'non-trivial when at least one model is fitted with >=2 fitted bands of distinct extinction coefficient; '
         'distinct = distinct canonical hash of the generated inputs')
-REQUIRED_BRANCHES = ['source_arrays_f8', 'source_arrays_list', 'source_arrays_int', 'source_arrays_be', 'source_arrays_readonly', 'tiny_model_flux', 'same_source_object_refitted', 'wav_filter_off_grid', 'rebuilt_in_place', 'wav_filter_other_unit', 'pkg_v1_mJy', 'pkg_v1_Jy', 'pkg_cube', 'pkg_cube_memmap', 'range_end_zero', 'law_other_unit', 'clamp_low', 'clamp_high', 'interior', 'lo_eq_hi', 'limit_violated', 'limit_ok', 'flag4', 'flag0or9']
+REQUIRED_BRANCHES = ['law_route_attrs', 'law_route_file', 'law_route_file_swapped', 'law_route_file_03', 'law_route_file_21', 'law_route_copy', 'law_route_deepcopy', 'law_route_pickle', 'source_arrays_f8', 'source_arrays_list', 'source_arrays_int', 'source_arrays_be', 'source_arrays_readonly', 'tiny_model_flux', 'same_source_object_refitted', 'wav_filter_off_grid', 'rebuilt_in_place', 'wav_filter_other_unit', 'pkg_v1_mJy', 'pkg_v1_Jy', 'pkg_cube', 'pkg_cube_memmap', 'range_end_zero', 'law_other_unit', 'clamp_low', 'clamp_high', 'interior', 'lo_eq_hi', 'limit_violated', 'limit_ok', 'flag4', 'flag0or9']
 ASSUMPTIONS = ['IEEE rounding is not modelled: comparison tolerance 1e-9 x condition number',
                'decisions closer than 1e-7 to their threshold are compared in relaxed mode']
 N = {'quick': 160, 'thorough': 12000}
@@ -122,7 +122,8 @@ def gen_case(rng, directed=None):
         gap = min(abs(w - x) for x in allw if x != w)
         off = rng.choice([0., 0., 0.3, -0.3, 0.1, -0.45]) * gap
         req.append(float('%.6g' % (w + off)))
-    return dict(req_wavs=req, kind=kind, wavs=wavs, tab_w=tw, tab_chi=chi, wav_unit=wav_unit, models=models, av=av, sources=sources,
+    law_route = rng.choice(['attrs', 'attrs', 'file', 'file_swapped', 'file_03', 'file_21', 'copy', 'deepcopy', 'pickle'])
+    return dict(law_route=law_route, req_wavs=req, kind=kind, wavs=wavs, tab_w=tw, tab_chi=chi, wav_unit=wav_unit, models=models, av=av, sources=sources,
                 pkg=pkg, filt_units=filt_units, rebuild=rebuild)
 
 
@@ -152,6 +153,38 @@ def source_as(src, name):
             arr.flags.writeable = False
         s.valid, s.flux, s.error = a, b, c
     return s
+
+
+def law_as(case, tab, unit, d):
+    """the extinction law reaching the Fitter through one of the public routes: attributes assigned on an empty object,
+    `Extinction.from_file` (text file with extra columns, wavelength / opacity picked with `columns=`, units given as
+    options), the same object after a copy / pickle round trip.  `repr()` of a float round-trips, so every route holds
+    the same numbers."""
+    import copy, pickle
+    from astropy import units as u
+    from sedfitter.extinction import Extinction
+    route = case.get('law_route', 'attrs')
+    if route.startswith('file'):
+        # columns: (wavelength column, opacity column) among 2..4 columns; the others hold decoys
+        ncol, cw, cc = {'file': (2, 0, 1), 'file_swapped': (2, 1, 0), 'file_03': (4, 0, 3), 'file_21': (3, 2, 1)}[route]
+        path = os.path.join(d, 'law.txt')
+        with open(path, 'w') as f:
+            for i, (w, c) in enumerate(zip(tab, case['tab_chi'])):
+                row = [repr(float(7 + i * 3 + j)) for j in range(ncol)]
+                row[cw], row[cc] = repr(float(w)), repr(float(c))
+                f.write(' '.join(row) + '\n')
+        ext = Extinction.from_file(path, columns=(cw, cc), wav_unit=unit) if (cw, cc) != (0, 1) or unit != u.micron \
+            else Extinction.from_file(path)
+        os.remove(path)
+        return ext
+    ext = pk.make_extinction(tab, case['tab_chi'], wav_unit=unit)
+    if route == 'copy':
+        return copy.copy(ext)
+    if route == 'deepcopy':
+        return copy.deepcopy(ext)
+    if route == 'pickle':
+        return pickle.loads(pickle.dumps(ext))
+    return ext
 
 
 def fitter_wavs(case):
@@ -198,7 +231,7 @@ def build(case, scratch_dir):
     d = scratch_dir
     pkg = case.get('pkg', 'v1_mJy')
     unit, tab, _, _ = table_in_unit(case)
-    ext = pk.make_extinction(tab, case['tab_chi'], wav_unit=unit)
+    ext = law_as(case, tab, unit, d)
     if pkg.startswith('cube'):
         # cube package whose tabulated wavelengths are the filters' (plus two more), one aperture, stored in
         # increasing or decreasing wavelength; fitted at wavelengths given instead of filter names
@@ -325,6 +358,7 @@ def run_case(case):
             branches.add('law_other_unit')
         if any(x < 1e-8 for mf in case['models'] for x in mf):
             branches.add('tiny_model_flux')
+        branches.add('law_route_' + case.get('law_route', 'attrs'))
         nontrivial = False
         for si, src in enumerate(case['sources']):
             if singular(case, src):
